@@ -44,6 +44,7 @@ func checkC11(c *checkCtx) int {
 		Samples    json.RawMessage `json:"samples"`
 		Signature  string          `json:"budget_error_signature"`
 		EntrySites int             `json:"parse_expr_entry_sites"`
+		TwinProbes int             `json:"fresh_twin_probes"`
 		Hashes     []uint64        `json:"input_hashes"`
 	}
 	var tot sumT
@@ -75,6 +76,7 @@ func checkC11(c *checkCtx) int {
 				tot.NoRef += s.NoRef
 				tot.Valid += s.Valid
 				tot.Steps += s.Steps
+				tot.TwinProbes += s.TwinProbes
 				if s.MaxRatio > tot.MaxRatio {
 					tot.MaxRatio = s.MaxRatio
 				}
@@ -175,6 +177,7 @@ func checkC11(c *checkCtx) int {
 		"volume_phase": map[string]interface{}{"hostile_inputs_refused": volRejected, "harmless_inputs_accepted_afterwards_under_the_same_budget": volAccepted,
 			"note": "per worker process, on the untouched build: distinct hostile inputs (ten unmatched parentheses) refused under budget B = 3 x the measured threshold of the harmless template, then distinct harmless inputs that must all parse under B"},
 		"residue_checks_after_abort":          tot.Residue,
+		"fresh_twin_probes":                   tot.TwinProbes,
 		"max_unlimited_steps":                 tot.MaxS,
 		"max_statements_per_budget_unit_seen": tot.MaxRatio,
 		"simulated_time_steps":                tot.Steps,
